@@ -6,6 +6,7 @@ import (
 	"fmt"
 	"go/constant"
 	"go/types"
+	"golang.org/x/tools/go/ssa/ssautil"
 	"os"
 	"path/filepath"
 	"sort"
@@ -96,6 +97,14 @@ func (x *Exec) globalFacts(s *State, pkg *ssa.Package) {
 				}
 				continue
 			}
+			// var g = &T{...}: the global holds a non-nil pointer (A-globals: assigned once)
+			if al, isAlloc := st.Val.(*ssa.Alloc); isAlloc && al.Heap && x.storedOnlyInInit(pkg, init, g) {
+				if _, isPtr := g.Type().(*types.Pointer).Elem().Underlying().(*types.Pointer); isPtr {
+					h := x.heapGet(s, x.globalKey(g), SInt)
+					s.assume(Not(Eq(h, IntLit(0))))
+				}
+				continue
+			}
 			if _, isCall := st.Val.(*ssa.Call); !isCall {
 				if _, isMI := st.Val.(*ssa.MakeInterface); !isMI {
 					continue
@@ -149,21 +158,8 @@ func (x *Exec) globalsFromCall(s *State, pkg *ssa.Package, init *ssa.Function, c
 	}
 	// assigned once: no store to these globals outside the initialiser
 	for _, g := range res {
-		for _, m := range pkg.Members {
-			f, ok := m.(*ssa.Function)
-			if !ok || f == init {
-				continue
-			}
-			fns := append([]*ssa.Function{f}, f.AnonFuncs...)
-			for _, fn := range fns {
-				for _, b := range fn.Blocks {
-					for _, in := range b.Instrs {
-						if st, ok := in.(*ssa.Store); ok && st.Addr == ssa.Value(g) {
-							return
-						}
-					}
-				}
-			}
+		if !x.storedOnlyInInit(pkg, init, g) {
+			return
 		}
 	}
 	names := map[string]Val{}
@@ -183,6 +179,30 @@ func (x *Exec) globalsFromCall(s *State, pkg *ssa.Package, init *ssa.Function, c
 			}
 		}
 	}
+}
+
+// storedOnlyInInit reports whether no function of the program other than the package initialiser
+// stores to g (methods and closures included).
+func (x *Exec) storedOnlyInInit(pkg *ssa.Package, init *ssa.Function, g *ssa.Global) bool {
+	e := x.eng
+	if e.globalStores == nil {
+		e.globalStores = map[*ssa.Global]bool{}
+		for fn := range ssautil.AllFunctions(e.prog) {
+			if fn.Name() == "init" && fn.Signature.Recv() == nil && fn.Parent() == nil {
+				continue
+			}
+			for _, b := range fn.Blocks {
+				for _, in := range b.Instrs {
+					if st, ok := in.(*ssa.Store); ok {
+						if gg, ok := st.Addr.(*ssa.Global); ok {
+							e.globalStores[gg] = true
+						}
+					}
+				}
+			}
+		}
+	}
+	return !e.globalStores[g]
 }
 
 // exprMentionsOnly reports whether every identifier of e is one of names (or a constant like nil).
